@@ -50,6 +50,8 @@ pub struct FnSpec {
     pub props: Vec<String>,
     pub retype: Vec<(String, String)>,
     pub traitimpl: Option<String>,
+    pub dropcalls: Vec<String>,            // argument-less methods that are the identity in this function (e.g. `.into()` once `T` was retyped)
+    pub dropgenerics: Vec<String>,         // generic parameters of this function that a `retype` made unnecessary
     pub locals: Vec<(String, usize)>,      // `local NAME ORD`: a local the overlay names; if renamed in the source, the ORD-th `let` of the function
     pub closure: Option<usize>,            // this entry is the k-th closure literal of the function (lifted to a function)
     pub sig: Option<String>,               // signature of the lifted closure (captured variables become parameters)
@@ -235,6 +237,8 @@ fn parse_fn(head: &str, body: &[String]) -> FnSpec {
             "closure" => f.closure = Some(rest.trim().parse().expect("closure index")),
             "sig" => f.sig = Some(rest),
             "ctl" => f.ctl = true,
+            "dropcall" => f.dropcalls.extend(rest.split_whitespace().map(|x| x.to_string())),
+            "dropgeneric" => f.dropgenerics.extend(rest.split_whitespace().map(|x| x.to_string())),
             "local" => {
                 let w: Vec<&str> = rest.split_whitespace().collect();
                 f.locals.push((w[0].to_string(), w[1].parse().expect("local NAME ORD")));
